@@ -98,10 +98,7 @@ class World:
         shutil.rmtree(self.root, ignore_errors=True)
 
 
-def unreadable(data):
-    """does marshal reject the payload of this cache file? (an entry that still unmarshals — to whatever code object — is
-    not 'unreadable': the cache format has no checksum, such damage is outside the property, and executing it could
-    crash the interpreter, so it is never run)"""
+def _unreadable(data):
     import marshal
 
     try:
@@ -113,6 +110,18 @@ def unreadable(data):
         return False
     except BaseException:  # noqa: BLE001
         return True
+
+
+def unreadable(data):
+    """does marshal reject the payload of this cache file? (an entry that still unmarshals — to whatever code object — is
+    not 'unreadable': the cache format has no checksum, such damage is outside the property, and executing it could
+    crash the interpreter, so it is never run).  marshal.loads is documented as unsafe on damaged data — it can take the
+    interpreter down with it (it did, in a thorough run) — so the probe runs in a forked child; a child that dies counts as
+    'marshal does not reject it' and the caller falls back to a truncation, which marshal does reject."""
+    import base64
+
+    r = common.map_in_child(lambda b: _unreadable(base64.b64decode(b)), [base64.b64encode(data).decode()], per_item_timeout=20, label="c19-marshal")[0]
+    return r is True
 
 
 def keep_mtime(path, fn):
